@@ -375,6 +375,12 @@ using G_gray = mp::mp_list<ValueHolder<ba_g4::value_type>, BitAlignedHolder<ba_g
 using Groups = mp::mp_list<G_rgb8, G_rgba8, G_565, G_8888, G_cmyk8, G_rgb16, G_rgb32f, G_rgba16s, G_dn2, G_dn5, G_gray>;
 static const char* group_name[] = {"rgb8", "rgba8", "rgb565", "rgba8888", "cmyk8", "rgb16", "rgb32f", "rgba16s", "devicen2", "devicen5", "gray4_bits"};
 constexpr int NG = static_cast<int>(mp::mp_size<Groups>::value);
+// the harness is built as C05_PARTS binaries (compile time of the overload matrix), binary C05_PART holding the groups gi % C05_PARTS == C05_PART
+#ifndef C05_PARTS
+#define C05_PARTS 1
+#define C05_PART 0
+#endif
+template <int GI> constexpr bool in_part = (GI % C05_PARTS) == C05_PART;
 
 template <class G> static void run_group(verif::Evidence& ev, int gi, u64 seed, int rounds)
 {
@@ -416,7 +422,10 @@ void verif_replay(Case const& c)
     int gi = static_cast<int>(c.get("group"));
     if (gi < 0 || gi >= NG) throw verif::Fail("bad group");
     // re-run the whole group with the recorded seed (cheap), failures carry their own (pair, round)
-    mp::mp_with_index<NG>(static_cast<std::size_t>(gi), [&](auto G) { run_group<mp::mp_at_c<Groups, decltype(G)::value>>(ev, gi, static_cast<u64>(c.get("seed")), 3000); });
+    mp::mp_with_index<NG>(static_cast<std::size_t>(gi), [&](auto G) {
+        if constexpr (in_part<decltype(G)::value>) run_group<mp::mp_at_c<Groups, decltype(G)::value>>(ev, gi, static_cast<u64>(c.get("seed")), 3000);
+        else throw verif::Fail("group not in this binary");
+    });
     if (ev.n_failures()) throw verif::Fail(ev.failures[0].second);
 }
 
@@ -437,7 +446,9 @@ void verif_run(verif::Args const& a, verif::Evidence& ev)
             {
                 int gi = next++;
                 if (gi >= NG) return;
-                mp::mp_with_index<NG>(static_cast<std::size_t>(gi), [&](auto G) { run_group<mp::mp_at_c<Groups, decltype(G)::value>>(ev, gi, a.seed, rounds); });
+                mp::mp_with_index<NG>(static_cast<std::size_t>(gi), [&](auto G) {
+                    if constexpr (in_part<decltype(G)::value>) run_group<mp::mp_at_c<Groups, decltype(G)::value>>(ev, gi, a.seed, rounds);
+                });
             }
         });
     for (auto& t : thr) t.join();
